@@ -68,7 +68,8 @@ def gen_script(r, max_steps):
                 for pos, t in enumerate(ins):
                     # an index is rebound to the output at the argument's position: only use one where
                     # the op has such an output
-                    cands_i = [i for i, x in enumerate(tracked) if x == t] if pos < len(outs) else []
+                    # (one index at most once per command: what a repeated index should be rebound to is not stated)
+                    cands_i = [i for i, x in enumerate(tracked) if x == t and i not in args] if pos < len(outs) else []
                     cands_w = [w for w in wires if w[1] == t]
                     if cands_i and r.random() < 0.65:
                         args.append(r.choice(cands_i))
